@@ -10,6 +10,7 @@ import (
 	"fmt"
 	"sort"
 	"strconv"
+	"sync"
 
 	"github.com/cenkalti/rain/v2/internal/zzsim/simrt"
 )
@@ -201,7 +202,9 @@ type Torrent struct {
 	InfoHash  [20]byte
 	MetaBytes []byte
 	// FileOff[i] is the offset of file i in Data.
-	FileOff []int64
+	FileOff  []int64
+	padMu    sync.Mutex
+	padCache map[int][]bool
 }
 
 // Build materialises a layout.
@@ -302,6 +305,20 @@ func (t *Torrent) FileData(i int) []byte {
 
 // PadMask returns, for piece i, a bool per byte: true where the byte belongs to a padding file.
 func (t *Torrent) PadMask(i int) []bool {
+	t.padMu.Lock()
+	defer t.padMu.Unlock()
+	if m, ok := t.padCache[i]; ok {
+		return m
+	}
+	if t.padCache == nil {
+		t.padCache = map[int][]bool{}
+	}
+	m := t.padMask(i)
+	t.padCache[i] = m
+	return m
+}
+
+func (t *Torrent) padMask(i int) []bool {
 	off := int64(i) * int64(t.PieceLen)
 	n := t.PieceSize(i)
 	m := make([]bool, n)
